@@ -1,5 +1,6 @@
 import EinxModel.Driver.Util
 import EinxModel.Optimize.DagSem
+import EinxModel.Optimize.DagMeasure
 open Lean Einx.Driver
 
 /-! Driver kind `optdag` (C05): run the model of the real optimiser traversal (`Optimize/Dag.lean: optimizeDag`) on a
@@ -175,6 +176,18 @@ def errJson : Err → Json
   | .py e => Json.mkObj [("error_kind", "py"), ("exc", Json.str e)]
   | .unsupported w => Json.mkObj [("error_kind", "unsupported"), ("why", Json.str w)]
 
+/-- `Prog.weight` before the first pass and after every pass of the run (the measure of `Props/C05Dag2.lean: pass_decreases_dag`). -/
+def weightsRun (pats : List Pattern) : Nat → Prog → List Nat
+  | 0, p => [p.weight]
+  | n + 1, p =>
+    p.weight :: (match pass pats p.fuel p with
+      | .ok (p', true) => weightsRun pats n p'
+      | .ok (p', false) => [p'.weight]
+      | _ => [])
+
+def hasEffects (p : Prog) : Bool :=
+  p.store.nodes.any (fun n => match n.origin with | .app a => a.head.isEffect | _ => false)
+
 /-- kind `optdag`: `{"prog", "patterns", "max_passes"}` → `{"prog", "changed"}` | `{"error_kind", …}`. -/
 def handle (j : Json) : R Json := do
   match ← strF j "kind" with
@@ -186,7 +199,12 @@ def handle (j : Json) : R Json := do
     | .ok (q, log) =>
       -- `good_run`: the decidable side conditions of `Props/C05Dag.lean: optimizeDag_sound` hold for this run
       pure (Json.mkObj [("prog", progJson q), ("changed", jArr (log.map Json.bool)), ("good_run", Json.bool (goodRun pats n p)),
-        ("wf_top", Json.bool p.wfTop), ("pure_lang", Json.bool p.pureLang), ("fuel_run", Json.bool (fuelRun pats n p)), ("no_top_inline", Json.bool (noTopInline pats p))])
+        ("wf_top", Json.bool p.wfTop), ("pure_lang", Json.bool p.pureLang), ("fuel_run", Json.bool (fuelRun pats n p)), ("no_top_inline", Json.bool (noTopInline pats p)),
+        -- input-only side conditions of `Props/C05Dag2.lean` and the one run condition `noInlineRun`
+        ("topo_ok", Json.bool p.topoOK), ("measure_ok", Json.bool p.measureOK), ("no_inline_run", Json.bool (noInlineRun pats n p)),
+        ("weights", jNats (weightsRun pats n p)), ("has_effects", Json.bool (hasEffects p)),
+        -- the graph is inside the domain of `optimizeDag_sound_input` (structural part: the evaluator's node language)
+        ("in_domain", Json.bool (p.wfTop && p.topoOK && noInlineRun pats n p && p.pureLang))])
     | .error e => pure (errJson e)
   | k => throw s!"unknown kind {k}"
 
